@@ -1224,8 +1224,7 @@ func (in *Interp) next(fr *frame, x *ssa.Next) Value {
 			return Tuple{true, k, copyVal(v)}
 		}
 	}
-	tup := x.Type().(*types.Tuple)
-	return Tuple{false, in.zero(tup.At(1).Type()), in.zero(tup.At(2).Type())}
+	return Tuple{false, nil, nil}
 }
 
 // ------------------------------------------------------------------
